@@ -198,7 +198,24 @@ func labelList(ls []logql.Label) []tok {
 	return out
 }
 
+// durStyle selects how durations are spelled: 0 Prometheus style (largest unit that divides), 1 Go style with a
+// fraction ("1.5h", "0.25s", "300.0s"), 2 several units ("1h30m0s"). Every spelling denotes the same duration.
+var durStyle int
+
 func durText(d time.Duration) string {
+	if durStyle == 1 && d > 0 {
+		switch {
+		case d%(30*time.Minute) == 0:
+			return strconv.FormatFloat(d.Hours(), 'f', 1, 64) + "h"
+		case d%(100*time.Millisecond) == 0:
+			return strconv.FormatFloat(d.Seconds(), 'f', 1, 64) + "s"
+		default:
+			return strconv.FormatFloat(d.Seconds(), 'f', 3, 64) + "s"
+		}
+	}
+	if durStyle == 2 && d > 0 && d < 24*time.Hour {
+		return d.String() // 1h30m0s, 5m0s, 250ms
+	}
 	switch {
 	case d%(7*24*time.Hour) == 0 && d > 0:
 		return strconv.Itoa(int(d/(7*24*time.Hour))) + "w"
